@@ -3,7 +3,7 @@ package main
 func init() {
 	table["C17"] = propSpec{
 		Level: "fault_enumeration",
-		Rule:  "evaluations = scripted lookups (lookup), histories (history) and hostile exchanges (parser) executed on the real dns.Resolver over loopback sockets under the virtual clock; distinct_nontrivial = distinct (mode, upstream reactions per query and transport, order, outcome) classes, (cache capacity, model expectation, time offset to the lifetime's end, upstream state) classes and (mutation operator, transport, outcome) classes",
+		Rule:  "evaluations = scripted lookups (lookup), histories (history) and hostile exchanges (parser) executed on the real dns.Resolver over loopback sockets under the virtual clock, and storms of concurrent lookups on one resolver under the race detector (concurrent); distinct_nontrivial = distinct (mode, upstream reactions per query and transport, order, outcome) classes, (cache capacity, model expectation, time offset to the lifetime's end, upstream state) classes (mutation operator, transport, outcome) classes and (cache capacity, goroutines, check) classes",
 		Assumptions: append([]string{
 			"failure rcodes and negative answers count as answers; their caching time is 30 s resp. the SOA TTL; when answers of different nature meet in one result (F15) any expiry between the smallest and the largest candidate is accepted, a lookup exactly at the expiry instant is don't-care",
 			"an acceptable answer that is sent behind an unusable message of the same transport phase may or may not be used (don't-care); a truncated or damaged message with the lookup's ID may shorten, never lengthen, the cached lifetime",
@@ -16,6 +16,7 @@ func init() {
 			{Name: "lookup", Flavour: "ft", ShardsQ: 3, ShardsT: 8, TimeoutQ: m10, TimeoutT: m60, Weight: 2},
 			{Name: "history", Flavour: "ft", ShardsQ: 2, ShardsT: 8, TimeoutQ: m10, TimeoutT: m60, Weight: 2},
 			{Name: "parser", Flavour: "ft", ShardsQ: 2, ShardsT: 16, TimeoutQ: m10, TimeoutT: m60, Weight: 2},
+			{Name: "concurrent", Flavour: "race", ShardsQ: 1, ShardsT: 4, TimeoutQ: m10, TimeoutT: m60, Weight: 1},
 		},
 	}
 }
